@@ -134,8 +134,21 @@ pub fn run(prop: &str, cases: &[String]) -> RunOut {
                 let (s, w) = (b(t[t.len() - 2]), b(t[t.len() - 1]));
                 let r: Option<Result<ExtraAccountMeta, ProgramError>> = guarded(|| match t[1] {
                     "key" => ExtraAccountMeta::new_with_pubkey(&key_of(t[2]), s, w),
-                    "meta" => Ok(ExtraAccountMeta::from(&AccountMeta { pubkey: key_of(t[2]), is_signer: s, is_writable: w })),
-                    "info" => { let mut o = vec![Owned { key: key_of(t[2]), owner: Pubkey::default(), lamports: 0, data: vec![], s, w }]; let i = infos_of(&mut o); Ok(ExtraAccountMeta::from(&i[0])) }
+                    "meta" => {
+                        let am = AccountMeta { pubkey: key_of(t[2]), is_signer: s, is_writable: w };
+                        let by_ref = ExtraAccountMeta::from(&am);
+                        assert_eq!(bytemuck::bytes_of(&by_ref), bytemuck::bytes_of(&ExtraAccountMeta::from(am.clone())), "From<AccountMeta> by value differs from by reference");
+                        // and back: a fixed-address config converts to the same AccountMeta
+                        assert_eq!(AccountMeta::try_from(&by_ref).ok(), Some(am), "TryFrom<&ExtraAccountMeta> for AccountMeta is not the inverse");
+                        Ok(by_ref)
+                    }
+                    "info" => {
+                        let mut o = vec![Owned { key: key_of(t[2]), owner: Pubkey::default(), lamports: 0, data: vec![], s, w }];
+                        let i = infos_of(&mut o);
+                        let by_ref = ExtraAccountMeta::from(&i[0]);
+                        assert_eq!(bytemuck::bytes_of(&by_ref), bytemuck::bytes_of(&ExtraAccountMeta::from(i[0].clone())), "From<AccountInfo> by value differs from by reference");
+                        Ok(by_ref)
+                    }
                     "seeds" => ExtraAccountMeta::new_with_seeds(&parse_seeds(t[2]), s, w),
                     "ext" => ExtraAccountMeta::new_external_pda_with_seeds(t[2].parse().unwrap(), &parse_seeds(t[3]), s, w),
                     "kd" => ExtraAccountMeta::new_with_pubkey_data(&parse_kd(t[2]), s, w),
@@ -148,7 +161,11 @@ pub fn run(prop: &str, cases: &[String]) -> RunOut {
                         if bool::from(m.is_signer) != s || bool::from(m.is_writable) != w || m.is_signer.0 > 1 || m.is_writable.0 > 1 { err = Some("constructor did not store the flags".into()); }
                         match t[1] {
                             "key" | "meta" | "info" => if m.discriminator != 0 || m.address_config != key_of(t[2]).to_bytes() { err = Some("fixed-address config does not store the key".into()); },
-                            "seeds" => if m.discriminator != 1 || Seed::unpack_address_config(&m.address_config).ok() != Some(parse_seeds(t[2])) { err = Some("PDA config does not store the seed list".into()); },
+                            "seeds" => {
+                                if m.discriminator != 1 || Seed::unpack_address_config(&m.address_config).ok() != Some(parse_seeds(t[2])) { err = Some("PDA config does not store the seed list".into()); }
+                                // only fixed-address configs are account metas
+                                if AccountMeta::try_from(m).is_ok() { err = Some("a PDA config converted to an AccountMeta".into()); }
+                            }
                             "ext" => { let i: u8 = t[2].parse().unwrap(); if i >= 128 || m.discriminator != i + 128 || Seed::unpack_address_config(&m.address_config).ok() != Some(parse_seeds(t[3])) { err = Some("external PDA config does not store index + seeds".into()); } }
                             "kd" => if m.discriminator != 2 || PubkeyData::unpack(&m.address_config).ok() != Some(parse_kd(t[2])) { err = Some("key-data config does not store the key-data".into()); },
                             _ => {}
@@ -430,7 +447,7 @@ pub fn generate_c06_c08(prop: &str, tier: &str, rng: &mut Rng) -> Vec<String> {
         let initial: Vec<(usize, bool, bool)> = sc.metas.clone();
         match prop {
             "C06" if rng.chance(1, 2) => {
-                let fetch: Vec<String> = (0..6).map(|k| format!("{}:{}", hex(&sc.world.keys[k]), match rng.below(8) { 0 => "~".to_string(), _ => hex(&sc.datas[k]) })).collect();
+                let fetch: Vec<String> = (0..6).map(|k| format!("{}:{}", hex(&sc.world.keys[k]), match rng.below(12) { 0 => "~".to_string(), 1 => "!".to_string(), _ => hex(&sc.datas[k]) })).collect();
                 v.push(format!("addix {} {} {} {} {} {}", sc.tag, hex(&stored), hex(&sc.prog), hex(&sc.ixdata), metas_str(&sc), fetch.join(",")));
             }
             "C06" => v.push(format!("addcpi {} {} {} {} {} {} {}", sc.tag, hex(&stored), hex(&sc.prog), hex(&sc.ixdata), metas_str(&sc), infos_str(&sc, &initial), infos_str(&sc, &pool))),
